@@ -11,6 +11,7 @@ pub mod nogood;
 pub mod parser;
 pub mod sem;
 pub mod stream;
+pub mod users;
 pub mod web;
 
 pub fn spec(id: &str, tier: Tier) -> Option<PropSpec> {
@@ -31,6 +32,7 @@ pub fn spec(id: &str, tier: Tier) -> Option<PropSpec> {
         "C14" => history::c14(tier),
         "C15" => cli::c15(tier),
         "C16" => web::c16(tier),
+        "C17" => users::c17(tier),
         "C18" => nogood::c18(tier),
         "C19" => stream::c19(tier),
         "C20" => stream::c20(tier),
